@@ -65,8 +65,9 @@ void harness (void)
     VERIF_WITNESS ("end");
   }
 #endif
-#ifdef MODE_ROB
+#if defined(MODE_ROB) || defined(MODE_MUT)
   {
+#ifdef MODE_ROB
     /* arbitrary text: concrete class prefix PFX, then NB symbolic bytes, then NUL */
     static const char pfx[] = PFX;
     char *buf = (char *) malloc (sizeof pfx + NB);
@@ -75,6 +76,17 @@ void harness (void)
     for (i = 0; i < (int) sizeof pfx - 1; i++) buf[i] = pfx[i];
     for (i = 0; i < NB; i++) buf[sizeof pfx - 1 + i] = IN.txt[i];
     buf[sizeof pfx - 1 + NB] = 0;
+#else
+    /* damaged save text: the well-formed text MUT_TEXT with the byte at position POS replaced by ANY byte (0 = truncation
+       there); the other bytes stay concrete, so the parser's control flow is symbolic from the damaged byte on only */
+    static const char base[] = MUT_TEXT;
+    char *buf = (char *) malloc (sizeof base);
+    int i, r, r2; svalue_t out2;
+    __CPROVER_assume (buf != 0);
+    for (i = 0; i < (int) sizeof base; i++) buf[i] = base[i];
+    buf[POS] = IN.txt[0];
+    if (IN.txt[0] == base[POS]) VERIF_WITNESS ("undamaged_text");
+#endif
 #ifdef SAFE
     r = safe_restore_svalue (buf, &out);
 #else
